@@ -67,6 +67,7 @@ def run_shard(shard, acc):
             floats(bs, acc)
         elif k == 'strings':
             strings(bs, acc)
+            varlen(bs, acc)
         elif k == 'assign':
             assign(bs, acc)
         elif k == 'array':
@@ -230,6 +231,34 @@ def strings(bs, acc):
         judge(acc, 'token', exp, got, dict(fmt=fmt, values=repr(vals), route='pack', group='pack'), snip_create(f"bitstring.pack({fmt!r}, *{vals!r})", exp))
 
 
+def varlen(bs, acc):
+    """A length is 'not allowed for the type' for the self-delimiting codes, even when it happens to equal the codeword's length."""
+    from ..models import golomb as G
+    for name in ('ue', 'se', 'uie', 'sie'):
+        for v in (0, 1, 3, 6, -1, -3):
+            if v < 0 and name in ('ue', 'uie'):
+                continue
+            code = G.ENC[name](v)
+            for n in sorted({len(code), len(code) + 1, max(len(code) - 1, 0), 0, 8}):
+                acc.state(('varlen', name, v, n))
+                rts = [('kw', lambda: getattr(bs, 'Bits')(**{name: v}, length=n), f"bitstring.Bits({name}={v}, length={n})"),
+                       ('kw-mutable', lambda: bs.BitStream(**{name: v}, length=n), f"bitstring.BitStream({name}={v}, length={n})"),
+                       ('token-colon', lambda: bs.Bits(f'{name}:{n}={v}'), f"bitstring.Bits('{name}:{n}={v}')"),
+                       ('token-sized', lambda: bs.BitArray(f'{name}{n}={v}'), f"bitstring.BitArray('{name}{n}={v}')"),
+                       ('pack', lambda: bs.pack(f'{name}:{n}', v), f"bitstring.pack('{name}:{n}', {v})"),
+                       ('pack-kw', lambda: bs.pack(f'{name}:k', v, k=n), f"bitstring.pack('{name}:k', {v}, k={n})"),
+                       ('dtype', lambda: bs.Dtype(name, n).build(v), f"bitstring.Dtype('{name}', {n}).build({v})"),
+                       ('dtype-sized', lambda: bs.Dtype(f'{name}{n}').build(v), f"bitstring.Dtype('{name}{n}').build({v})"),
+                       ('setattr-sized', lambda: _seta(bs, f'{name}{n}', v), f"(lambda x: (setattr(x, '{name}{n}', {v}), x)[1])(bitstring.BitArray('0b1'))")]
+                for rname, th, src in rts:
+                    got = obs(th, lambda r: r.bin)
+                    judge(acc, 'create', 'reject', got, dict(dtype=name, n=n, value=v, route=rname, group=f'varlen|{rname}'), snip_create(src, 'reject'))
+            # and without a length the codeword is produced
+            got = obs(lambda: bs.Bits(**{name: v}), lambda r: r.bin)
+            judge(acc, 'create', ('ok', code), got, dict(dtype=name, value=v, route='kw', group='varlen|ok'), snip_create(f"bitstring.Bits({name}={v})", ('ok', code)))
+    acc.sample(dict(event="Bits(ue=3, length=5) -> CreationError although the codeword for 3 has 5 bits"))
+
+
 def _seta(bs, name, v):
     x = bs.BitArray('0b1')
     setattr(x, name, v)
@@ -266,6 +295,9 @@ def assign(bs, acc):
 
 def one_assign(bs, acc, cls, d, pname, v, exp):
     x = getattr(bs, cls)(bin=d)
+    p0 = (len(d) + 1) // 2 if cls == 'BitStream' else None       # a stream is positioned mid-way: a rejected assignment must not move it
+    if p0 is not None:
+        x.pos = p0
     acc.state((cls, d, pname, repr(v)))
 
     def do():
@@ -274,17 +306,17 @@ def one_assign(bs, acc, cls, d, pname, v, exp):
     got = obs(do)
     after = x.bin
     vs = "float('nan')" if isinstance(v, float) and v != v else repr(v)
-    snip = ["import bitstring", f"x = bitstring.{cls}(bin={d!r})", "try:", f"    x.{pname} = {vs}", "    ok = True", "except ValueError:", "    ok = False"]
+    snip = ["import bitstring", f"x = bitstring.{cls}(bin={d!r})" + (f"; x.pos = {p0}" if p0 is not None else ""), "try:", f"    x.{pname} = {vs}", "    ok = True", "except ValueError:", "    ok = False"]
     if exp == 'reject':
-        good = got[0] == 'exc' and got[1] in VE and after == d
+        good = got[0] == 'exc' and got[1] in VE and after == d and (p0 is None or x.pos == p0)
         acc.step('assign', 1, nontrivial=1, rej=1)
-        snip += [f"assert not ok and x.bin == {d!r}, (ok, x.bin)"]
+        snip += [f"assert not ok and x.bin == {d!r}, (ok, x.bin)"] + ([f"assert x.pos == {p0}, x.pos"] if p0 is not None else [])
     else:
         good = got == exp
         acc.step('assign', 1, nontrivial=1, ok=1)
         snip += [f"assert ok and x.bin == {exp[1]!r}, (ok, x.bin)"]
     if not good:
-        kind = 'frame' if (exp == 'reject' and got[0] == 'exc' and after != d) else ('noexc' if exp == 'reject' and got[0] == 'ok' else ('excclass' if exp == 'reject' else 'value'))
+        kind = 'frame' if (exp == 'reject' and got[0] == 'exc' and (after != d or (p0 is not None and x.pos != p0))) else ('noexc' if exp == 'reject' and got[0] == 'ok' else ('excclass' if exp == 'reject' else 'value'))
         acc.violation('assign', kind, dict(cls=cls, bits=d, prop=pname, value=vs, group=f'{pname}|{kind}'), '\n'.join(snip), exp, (got, after))
     acc.outcome(('assign', pname, exp if exp == 'reject' else 'ok'))
 
